@@ -218,7 +218,8 @@ prop("C04", ["prims.go", "c04.go"],
 # ------------------------------------------------------------------------------------------------ C09
 prop("C09", ["prims.go", "c09a.go"],
      [run("mux", "harnessC09a", ["accept-matched", "accept-timed-out", "probe-done"],
-          quick={"bound": "MuxBroker: <= 2 inbound dials with IDs x1, x2 NOT assumed distinct at symbolic instants t1 <= t2, <= 1 local Accept(a) at tA, then a fresh matched pair after every timer expired; canonical schedule, symbolic clock (ties explored)"}),
+          quick={"bound": "MuxBroker: <= 2 inbound dials with IDs x1, x2 NOT assumed distinct at symbolic instants t1 <= t2, <= 1 local Accept(a) at tA, then a fresh matched pair after every timer expired; canonical schedule, symbolic clock (ties explored)"},
+          thorough={"dpor": True, "max_reversals": 1, "max_wall_s": 1500, "bound": "as quick, and all schedules with <= 1 reversal (DPOR)"}),
       run("grpc", "harnessC09grpc", ["history-done", "lonely-accept", "fresh-pair", "closed"], files=["prims.go", "c07.go"],
           quick={"bound": "GRPCBroker without multiplexing, real stream pumps: <= 2 Dial calls nobody accepts (IDs not assumed distinct) and <= 1 Accept nobody dials, at symbolic instants; then a fresh routed pair; then Close of both brokers"}),
       run("grpc-mux", "harnessC09mux", ["history-done", "fresh-pair", "closed"], files=["prims.go", "c08.go"],
@@ -233,7 +234,8 @@ prop("C09", ["prims.go", "c09a.go"],
 NETRPC = "net/rpc model: Call(\"Svc.Method\") runs the real registered receiver method in a goroutine of the peer; fails when the connection is closed"
 prop("C06", ["prims.go", "c06.go"],
      [run("routing", "harnessC06", ["dispensed", "routed"], dpor=True,
-          quick={"max_reversals": 2, "bound": "two Dispense calls + two symbolic distinct IDs accepted on the host and dialled from the plugin within a symbolic gap < 5 s in either order; all schedules with <= 2 reversals"})],
+          quick={"max_reversals": 2, "bound": "two Dispense calls + two symbolic distinct IDs accepted on the host and dialled from the plugin within a symbolic gap < 5 s in either order; all schedules with <= 2 reversals"},
+          thorough={"max_reversals": 3, "max_wall_s": 1700, "bound": "as quick with <= 3 reversals (260 747 schedules, 14.7 M solver queries, 13 min on 16 cores when measured)"})],
      [YAMUX, NETRPC], ["yamux", "net/rpc", "encoding/binary"],
      "byte transport on a stream (yamux contract); 3 IDs; more than 1 reversal in quick",
      text="Bounded symbolic model checking of the real MuxBroker (Accept/Dial/Run/NextId/AcceptAndServe), dispenseServer.Dispense, RPCClient.Dispense and serve over paired-session yamux and net/rpc models, all schedules up to the reversal bound: Accept(n) returns the far end of the stream Dial(n) returned, and each Dispense reaches the server object created for that dispense.",
